@@ -157,7 +157,7 @@ Qed.
    entry, parents 0755 — a concrete instance (non-vacuity), and the trailing-slash
    witness of finding C13-F3 *)
 Definition tree_with_etc : fs :=
-  [mkNode KDir 493 0 0 "" "" [("etc", 1%nat)]; mkNode KDir 493 0 0 "" "" []].
+  [mkNode KDir 493 0 0 "" "" [("etc", 1%nat)] ""; mkNode KDir 493 0 0 "" "" [] ""].
 
 Lemma home_created_example :
   exists f', ensure_home 40 tree_with_etc (mkUE "app" "x" 1000 1000 "" "/home/app" "/bin/sh") = FOk f' /\
